@@ -182,6 +182,21 @@ def Bracketed (ops : List BOp) : Prop := netDepth 0 ops = some 0
 
 instance (ops : List BOp) : Decidable (Bracketed ops) := by unfold Bracketed; exact inferInstance
 
+/-- a block of operations after a checkpoint: `(d, n)` = staging depth relative to the checkpoint and the number
+of `release`s that hit a level OLDER than the checkpoint (allowed: releasing does not touch the content);
+`none` if a `cleanup` would discard a level older than the checkpoint (that cuts the checkpoint away) -/
+def cpBlock : Nat → Nat → List BOp → Option (Nat × Nat)
+  | d, n, [] => some (d, n)
+  | d, n, .staging :: r => cpBlock (d + 1) n r
+  | 0, n, .release :: r => cpBlock 0 (n + 1) r
+  | 0, _, .cleanup :: _ => none
+  | d + 1, n, .release :: r => cpBlock d n r
+  | d + 1, n, .cleanup :: r => cpBlock d n r
+  | d, n, .set _ _ :: r => cpBlock d n r
+  | d, n, .del _ :: r => cpBlock d n r
+  | d, n, .checkpoint :: r => cpBlock d n r
+  | d, n, .revert _ :: r => cpBlock d n r
+
 def BOp.revertsAtLeast (i : Nat) : BOp → Bool
   | .revert j => decide (i ≤ j)
   | _ => true
